@@ -159,10 +159,10 @@ Fixpoint rounds (c : cfg) (n : nat) (l : line) : res line :=
 
 (* ---------- from the designed fibres to the amplifier contexts (set_egress_amplifier's walk) ---------- *)
 (* design_span_loss cached by add_fiber_padding on the last fibre of a span (r: the span before padding):
-   this_span_loss, plus the padding that was added on the first fibre (gnpy fix 13a35c31; before it the whole
+   this_span_loss (losses minus first-estimate Raman gains), plus the padding that was added on the first fibre (gnpy fix 13a35c31; before it the whole
    att_in of the first fibre was added: finding F20) *)
 Definition run_dsl (c : cfg) (r : list elem) : Q :=
-  let sl := run_loss r in
+  let sl := span_sl c r in
   if Qltb sl (c_pad c) then
     match r with
     | Fib g :: _ => (sl + (c_pad c - sl))%Q
@@ -177,12 +177,15 @@ Definition raman_gain (rgain : string -> Q) (r : list elem) : Q :=
    r: the span before padding, r': after padding *)
 Definition loss_as_prev (c : cfg) (rgain : string -> Q) (r r' : list elem) : Q :=
   if last_plain_fib r then run_dsl c r else (run_loss r' - raman_gain rgain r')%Q.
-(* span_loss(next_node) inside target_power: next_node is the first element of the span; cached only when the span
-   is that single plain fibre; a Raman fibre in the span cannot be estimated there (TypeError, finding F15) *)
-Definition loss_as_next (c : cfg) (r r' : list elem) : res Q :=
+(* span_loss(next_node) inside target_power: next_node is the first element of the span; the design_span_loss cache
+   is hit only when the span is that single plain fibre.  Otherwise losses minus Raman gains: the gains cached by
+   add_fiber_padding when the span ends with a plain fibre, else this is the first estimate for the span's Raman
+   fibres (made at the reference power and returned rounded: c_rg; gnpy fix 36fd5b85 - before it: TypeError, F15) *)
+Definition loss_as_next (c : cfg) (rgain : string -> Q) (r r' : list elem) : res Q :=
   match r with
-  | [Fib f] => if f_raman f then Err "TypeError:estimate_raman_gain without input power" else Ok (run_dsl c r)
-  | _ => if has_raman r then Err "TypeError:estimate_raman_gain without input power" else Ok (run_loss r')
+  | [Fib f] => if f_raman f then Ok (run_loss r' - raman_first (c_rg c) r')%Q else Ok (run_dsl c r)
+  | _ => if last_plain_fib r then Ok (run_loss r' - raman_gain rgain r')%Q
+         else Ok (run_loss r' - raman_first (c_rg c) r')%Q
   end.
 Definition is_amp_run (r : list elem) : bool := match r with [Amp _] => true | _ => false end.
 (* walk over the spans of a designed line: prev = the span before the current group (None: ROADM / amplifier) *)
@@ -200,7 +203,7 @@ Fixpoint amp_items (c : cfg) (rgain : string -> Q) (opsf : string -> ain) (ptot 
                       | None =>
                           match t with
                           | [] => if dst_roadm then Ok NRoadm else Err "AttributeError:target_power of a Transceiver"
-                          | (n, n') :: _ => if is_amp_run n then Ok (NLoss 0) else let* l := loss_as_next c n n' in Ok (NLoss l)
+                          | (n, n') :: _ => if is_amp_run n then Ok (NLoss 0) else let* l := loss_as_next c rgain n n' in Ok (NLoss l)
                           end
                       end) in
           let* rest := amp_items c rgain opsf ptot dst_roadm None t in
